@@ -168,3 +168,26 @@ def complete_iff_all_jobs_finished():
          imp(rng(j0, 0, D.it.J), D.kj(j0) == D.it.L(j0))),
         ("n-at-most-N", pc, D.n <= D.it.N),
     ]
+
+
+@lemma("reset-state-equals-fresh-state", ("C12",))
+def reset_equals_fresh():
+    """C12 for the dispatcher, in the property's words: a dispatcher after reset() (post-condition of
+    Dispatcher.reset) and a freshly constructed one (post-condition of Dispatcher.__init__) on the same
+    instance have the same abstract state -- every job at its first operation and ready at 0, every
+    machine free at 0 with an empty list, nothing scheduled.  Together with dispatch-post-deterministic
+    (the post-state of a dispatch is a function of the pre-state and the request) every later history
+    yields the same schedule on both."""
+    from .core import REGISTRY, empty_state
+    h = Heap(tag="R")
+    d1, d2 = fresh("d_reset"), fresh("d_fresh")
+    D1, D2 = Disp(h, d1), Disp(h, d2)
+    pc = [p for _, p in reach(h, d1)] + [p for _, p in empty_state(h, d1)] + [D1.n == 0]
+    pc += [p for _, p in reach(h, d2)] + [p for _, p in empty_state(h, d2)] + [D2.n == 0]
+    pc += [D1.I == D2.I]
+    j, m = fresh("j"), fresh("m")
+    return [("same-number-of-machine-lists", pc, D1.M == D2.M),
+            ("same-job-state", pc + [rng(j, 0, D1.it.J)], z3.And(D1.kj(j) == D2.kj(j), D1.jn(j) == D2.jn(j))),
+            ("same-machine-state", pc + [rng(m, 0, D1.M)], z3.And(D1.mn(m) == D2.mn(m), D1.nS(m) == D2.nS(m),
+                                                                 D1.nS(m) == 0)),
+            ("same-count", pc, D1.n == D2.n)]
